@@ -156,6 +156,15 @@ def observe(tree, rng, st, next_doc, world, evaluate):
         post_eval(tree, obs)
     return obs
 
+def plain_of_raw(n):
+    """python data of a Raw tree (tags dropped): what a user would hand to ConfigNode(...)"""
+    if 's' in n:
+        s_ = n['s']
+        return None if 'e' in s_ else (s_['x'] if 'x' in s_ else sc_py(s_['l']))
+    if 'q' in n:
+        return [plain_of_raw(c) for c in n['q']]
+    return {sc_py(k): plain_of_raw(c) for k, c in n['m']}
+
 def has_unsafe(docs):
     return any(d.get('safe') is False for d in docs) or '"safe": false' in json.dumps([d['raw'] for d in docs])
 
@@ -213,6 +222,10 @@ class C19(Prop):
             case['style'] = list(st)
             case['vseed'] = rng.randrange(1 << 30)
             out.append(case)
+        r2 = _random.Random(rng.random())
+        for _ in range(max(4, n // 15)):          # (api) drawn last: the cases above stay the same for a seed
+            out.append({'docs': [{'raw': G.gen_doc(r2, G.PLAIN, 3, 0.0)}], 'mode': 'api', 'style': ['flow', 0, 0], 'vseed': r2.randrange(1 << 30),
+                        'parse_between': r2.random() < 0.8})
         return out
 
     # ------------------------------------------------------------------ implementation
@@ -221,6 +234,35 @@ class C19(Prop):
         rng = _random.Random(case.get('vseed', 0))
         mode = case['mode']
         docs = case['docs']
+        if mode == 'api':
+            # the tree is built through the PYTHON API (ConfigNode(data)) in a FRESH thread, where no parse has set the thread-local
+            # defaults yet; then something is parsed in that thread (which changes those defaults), then the tree is copied
+            # (seeded change S6-C19: a copy re-ran the constructor and picked the defaults of the moment). Outside the loader
+            # model: oracle only.
+            import threading
+            box = {}
+            def work():
+                try:
+                    from awesomeyaml.nodes.node import ConfigNode as CN
+                    # every leaf a value of its own (a fresh object): the container constructors give ONE node to one python object
+                    # (by design), and None / small ints / literal strings are shared objects
+                    ctr = [0]
+                    def fresh(v):
+                        if isinstance(v, dict): return {k: fresh(x) for k, x in v.items()}
+                        if isinstance(v, list): return [fresh(x) for x in v]
+                        ctr[0] += 1
+                        return ('v%d' % ctr[0]) if ctr[0] % 2 else 1000 + ctr[0]
+                    data = fresh(plain_of_raw(docs[0]['raw']))
+                    tree = CN(data)
+                    if case.get('parse_between', True):
+                        Builder().add_source('warm: {up: [1, 2]}', raw_yaml=True)
+                    box['ok'] = [observe(tree, rng, st, None, self.WORLD, evaluate=False)]
+                except RecursionError:
+                    box['err'] = {'err': 'recursion'}
+                except Exception as e:  # noqa
+                    box['err'] = classify_error(e)
+            t = threading.Thread(target=work); t.start(); t.join()
+            return box['err'] if 'err' in box else {'ok': box['ok']}
         try:
             if mode == 'parse':
                 b = Builder()
@@ -241,11 +283,13 @@ class C19(Prop):
 
     # ------------------------------------------------------------------ model
     def model_requests(self, case):
+        if case['mode'] == 'api':
+            return []
         docs = case['docs'] if case['mode'] != 'prefix' else case['docs'][:-1]
         return [{'op': 'c19', 'docs': docs, 'mode': 'parse' if case['mode'] == 'parse' else 'merge'}]
 
     def model_obs(self, case, answers):
-        return answers[0]
+        return answers[0] if answers else {'err': 'unsupported'}
 
     def compare_model(self, case, io, mo):
         if 'bad' in mo:
